@@ -4,11 +4,13 @@ CONSTANTS
   NV = 1
   NA = 1
   Kinds = {"ArrayView", "OwnedArray", "FixedArray", "FixedArrayView"}
-  Modes = {"default", "src", "ptr", "wptr", "size", "copy", "fview"}
-  Acts = {"Construct", "Assign", "Reset", "ResetPtr", "Resize", "Write", "Destroy", "SrcMake", "SrcWrite", "SrcResize", "SrcDestroy"}
+  Modes = {"default", "src", "ptr", "wptr", "size", "copy", "move", "fview"}
+  Acts = {"Construct", "Assign", "Reset", "ResetPtr", "Resize", "Write", "Destroy", "SrcMake", "SrcWrite", "SrcResize", "SrcDestroy", "SelfAssign", "SelfPtr", "SelfVal", "EdgeEmpty"}
+  Sizes = {0, 1, 2}
   MaxLen = 2
   ArrLen = 2
-  PtrSel = "all"
+  PtrSel = "few"
+  Palettes = {0}
   Sym = TRUE
   Excl = {}
   Variant = "contract"
